@@ -12,6 +12,9 @@ Byte strings are lower-case hex (`-` = empty string), lists are comma separated
   router idx=<tag|-> def=<tag|-> regs=<K>:<hex>:<tag>,... reqs=<method hex>:<path hex>:<pos>,...
         K = F (File) | D (Dir) | M<method hex> (MethodFile); answer: reg=<ok|dup|panicEmpty|panicTrie>,...
         serve=<i|d|n><tag>@<rel hex>@<pos> | miss | badmethod | panic
+  nest mode=<dir|tier> outer=<hex> scr=<a|u|l|t> idx=.. def=.. regs=.. reqs=..   (as router)
+        a handler scribbles over the slice RelRoute() gave it, then delegates to the inner router;
+        answer: serve=<i|d|n><tag>@<rel hex>@<pos>@<relroute> | miss | badmethod | outer-miss
   svc mode=<serve|internal> path=<hex> user=<hex> level=<int> adm=<pred> auth=<a> setup=<s>
       res=<t> guest=<t> usr=<t> admin=<t> signin=<t>
         pred = default|true|false|lvl2|anon|usera ; a = nil|miss|ok|err ; s = keep|err|set:<hex>:<int>
@@ -118,10 +121,8 @@ def showServed : Served Nat UInt8 → String
 def optTag (s : String) : Option (Option Nat) :=
   if s = "-" then some none else s.toNat?.map some
 
-def routerOp (idx dflt regs reqs : String) : Option String := do
-  let idx ← optTag idx
-  let dflt ← optTag dflt
-  let rs ← (listOf regs).mapM fun e =>
+def parseRouterRegs (regs : String) : Option (List (B × RNode Nat UInt8)) :=
+  (listOf regs).mapM fun e =>
     match e.splitOn ":" with
     | [k, h, t] => do
       let b ← Hex.decode h
@@ -133,7 +134,9 @@ def routerOp (idx dflt regs reqs : String) : Option String := do
         else none
       pure (b, n)
     | _ => none
-  let qs ← (listOf reqs).mapM fun e =>
+
+def parseReqs (reqs : String) : Option (List (B × B × Nat)) :=
+  (listOf reqs).mapM fun e =>
     match e.splitOn ":" with
     | [m, p, pos] => do
       let m ← Hex.decode m
@@ -141,16 +144,59 @@ def routerOp (idx dflt regs reqs : String) : Option String := do
       let pos ← pos.toNat?
       pure (m, p, pos)
     | _ => none
+
+def buildRouter (idx dflt : Option Nat) (rs : List (B × RNode Nat UInt8)) : Router Nat UInt8 × List String :=
   let step := fun (acc : Router Nat UInt8 × List String) (a : B × RNode Nat UInt8) =>
     let res := acc.1.add slash a.1 a.2
     let s := match res.2 with
       | .ok => "ok" | .dup => "dup" | .panicEmpty => "panicEmpty" | .panicTrie => "panicTrie"
     (res.1, acc.2 ++ [s])
-  let fin := rs.foldl step ({ index := idx, miss := dflt }, [])
+  rs.foldl step ({ index := idx, miss := dflt }, [])
+
+def routerOp (idx dflt regs reqs : String) : Option String := do
+  let idx ← optTag idx
+  let dflt ← optTag dflt
+  let rs ← parseRouterRegs regs
+  let qs ← parseReqs reqs
+  let fin := buildRouter idx dflt rs
   let outs := qs.map fun q =>
     let c := (Ctx.new slash q.2.1 q.1 []).shift q.2.2
     showServed (fin.1.serve c)
   pure s!"reg={showList fin.2} serve={showList outs}"
+
+/-! ### nested routers behind a handler that scribbles over what `RelRoute()` returned
+
+In the model every value is an immutable list, so whatever the intermediate
+handler does to the slice it got (`scr=` is ignored here) the nested router
+decides on the segments of the ORIGINAL path.  `mode=dir`: an outer router with
+one directory route `outer=` whose handler delegates to the inner router;
+`mode=tier`: a ServiceSet whose guest tier scribbles and misses and whose user
+tier is the inner router. -/
+
+def showServedRR : Served Nat UInt8 → String
+  | .index h c => s!"i{h}@{Hex.encode c.rel}@{c.pos}@{showRoute c.relRoute}"
+  | .dflt h c => s!"d{h}@{Hex.encode c.rel}@{c.pos}@{showRoute c.relRoute}"
+  | .node h c => s!"n{h}@{Hex.encode c.rel}@{c.pos}@{showRoute c.relRoute}"
+  | .miss => "miss"
+  | .badMethod => "badmethod"
+  | .panicNoNode => "panic"
+
+def nestOp (mode outer idx dflt regs reqs : String) : Option String := do
+  let outerP ← Hex.decode outer
+  let idx ← optTag idx
+  let dflt ← optTag dflt
+  let rs ← parseRouterRegs regs
+  let qs ← parseReqs reqs
+  let inner := (buildRouter idx dflt rs).1
+  let out : Router Nat UInt8 := (buildRouter none none [(outerP, ⟨0, true, []⟩)]).1
+  let outs := qs.map fun q =>
+    let c := (Ctx.new slash q.2.1 q.1 []).shift q.2.2
+    if mode = "tier" then showServedRR (inner.serve c)
+    else match out.serve c with
+      | .node _ c' => showServedRR (inner.serve c')
+      | .miss => "outer-miss"
+      | _ => "outer-other"
+  pure s!"serve={showList outs}"
 
 /-! ### service set -/
 
@@ -253,6 +299,14 @@ def step (_ : Unit) (line : String) : Unit × String :=
       let r ← kv rest "regs"
       let q ← kv rest "reqs"
       routerOp i d r q
+    | "nest" :: rest => do
+      let m ← kv rest "mode"
+      let o ← kv rest "outer"
+      let i ← kv rest "idx"
+      let d ← kv rest "def"
+      let r ← kv rest "regs"
+      let q ← kv rest "reqs"
+      nestOp m o i d r q
     | "svc" :: rest => svcOp rest
     | "host" :: rest => do
       let s ← kv rest "sets"
